@@ -200,7 +200,7 @@ func runC35(c *an.Ctx) {
 		pair(bs, ns, "blocks", "nonces")
 		pair(ns, bs, "nonces", "blocks")
 	}
-	c.RequireMin("window updates paired", nPairs, 6)
+	c.RequireMin("window updates paired", nPairs, 2)
 	// Verify: duplicate hash and nonce tests
 	if vf := mustFunc(c, "validator/increment.(*IncrementValidator).Verify"); vf != nil {
 		newestBlockWinsRule(c, vf, noncesF)
@@ -214,7 +214,29 @@ func runC35(c *an.Ctx) {
 		}}
 		v := an.Guarded(c.P, vf, []*an.Guard{dup}, nilErrReturn, false)
 		_ = v
-		noIterationCompletesWhenFailing(c, "forall|IncrementValidator.Verify|no-duplicate-hash", "a transaction whose hash is already in a block of the window is rejected", vf, []*an.Guard{dup}, nil)
+		// the scan covers the window from the start height on: written as a loop that starts at that index, or as a
+		// range over all blocks that skips the ones before it - "the index is below the start" is assumed false
+		inWindow := map[ssa.Value]an.Abs{}
+		for _, g := range an.InlineReach(vf) {
+			for _, v := range an.FindValues(g, func(v ssa.Value) bool { _, isB := v.(*ssa.BinOp); return isB }) {
+				isIdx := func(x ssa.Value) bool {
+					if b, isB := x.(*ssa.BinOp); isB && b.Op == token.ADD {
+						x = b.X
+					}
+					_, isPhi := x.(*ssa.Phi)
+					return isPhi
+				}
+				fromStart := func(y ssa.Value) bool { return !isIdx(y) && dependsOnParamVia(vf, y, vf.Params[2], 0) }
+				if m, whenTrue := relMatch(v, token.LSS, isIdx, fromStart); m {
+					if whenTrue {
+						inWindow[v] = an.AFalse
+					} else {
+						inWindow[v] = an.ATrue
+					}
+				}
+			}
+		}
+		noIterationCompletesWhenFailing(c, "forall|IncrementValidator.Verify|no-duplicate-hash", "a transaction whose hash is already in a block of the window is rejected", vf, []*an.Guard{dup}, inWindow)
 		// tx.Nonce != expected[payer], in either operand order and either polarity
 		nonce := relGuards("tx.Nonce != expected", token.NEQ, func(x ssa.Value) bool {
 			if cv, isC := x.(*ssa.Convert); isC {
